@@ -321,6 +321,10 @@ CallBegin ==
      /\ unbound' = unbound \cup (IF Head1.data = "expr" THEN Unbound(Head1.de) ELSE {})
      /\ IF Head1.tmpl \notin DOMAIN prog.bundle THEN status' = "unspec" /\ ctl' = <<>> /\ UNCHANGED pend
         ELSE IF IsBad(base) THEN /\ status' = (IF base.t = "err" THEN "err" ELSE "unspec") /\ ctl' = <<>> /\ UNCHANGED pend
+        \* data="$expr" passes a record; null or undefined is "no record": the
+        \* callee may not run on data nobody passed (an error). Other non-map
+        \* values are ill-typed programs: C06's domain, no claim here.
+        ELSE IF base.t \in {"null", "undef"} THEN status' = "err" /\ ctl' = <<>> /\ UNCHANGED pend
         ELSE IF base.t # "map" THEN status' = "unspec" /\ ctl' = <<>> /\ UNCHANGED pend
         ELSE /\ status' = status
              /\ pend' = Append(pend, [tmpl |-> Head1.tmpl, data |-> base.v])
